@@ -51,11 +51,20 @@ func bookString(s *ref.State, a *ref.Auction) []string {
 	return parts
 }
 
-// sellingReceipts returns what each account received from the selling escrow of a in this block.
+// sellingReceipts returns what each account received from the selling escrow of a in this block as an
+// allocation. The settlement code pays the allocations first and then sweeps the unsold remainder to
+// the auctioneer with one last transfer; that last transfer to the auctioneer is not an allocation
+// (this also holds when the auctioneer bids in their own auction).
 func sellingReceipts(trs []Transfer, a *ref.Auction) map[string]*big.Int {
 	out := map[string]*big.Int{}
-	for _, tr := range trs {
-		if tr.From == a.SellAddr && tr.To != a.Auctioneer {
+	last := -1
+	for i, tr := range trs {
+		if tr.From == a.SellAddr && tr.To == a.Auctioneer {
+			last = i
+		}
+	}
+	for i, tr := range trs {
+		if tr.From == a.SellAddr && i != last {
 			if _, ok := out[tr.To]; !ok {
 				out[tr.To] = new(big.Int)
 			}
@@ -65,10 +74,19 @@ func sellingReceipts(trs []Transfer, a *ref.Auction) map[string]*big.Int {
 	return out
 }
 
+// payingRefunds returns what each account got back from the paying escrow of a in this block. The
+// last transfer from the paying escrow to the auctioneer / the vesting escrow is the sweep of the
+// proceeds, not a refund.
 func payingRefunds(trs []Transfer, a *ref.Auction) map[string]*big.Int {
 	out := map[string]*big.Int{}
-	for _, tr := range trs {
-		if tr.From == a.PayAddr && tr.To != a.Auctioneer && tr.To != a.VestAddr {
+	last := -1
+	for i, tr := range trs {
+		if tr.From == a.PayAddr && (tr.To == a.Auctioneer || tr.To == a.VestAddr) {
+			last = i
+		}
+	}
+	for i, tr := range trs {
+		if tr.From == a.PayAddr && i != last && tr.To != a.VestAddr {
 			if _, ok := out[tr.To]; !ok {
 				out[tr.To] = new(big.Int)
 			}
